@@ -199,8 +199,8 @@ def run(ctx, res):
         res.count(f"disk:{label}")
         for act in ("list", "extract"):
             r = out[act]
-            if r["killed"] or r["wall"] > 30:
-                res.violate("disk_mutations", f"{act} did not terminate within the bound", case, {"wall": r["wall"], "rc": r["rc"]}, {"clause": "terminates"})
+            if r["killed"]:
+                res.violate("disk_mutations", f"{act} did not terminate within the bound", case, {"wall": r["wall"], "cpu": r["cpu"], "rc": r["rc"]}, {"clause": "terminates"})
             elif "MemoryError" in r["err"]:
                 res.violate("disk_mutations", f"{act} ran out of memory", case, r["err"][-200:], {"clause": "memory"})
         if out["before"] != out["after_list"]:
@@ -254,8 +254,8 @@ def run(ctx, res):
         res.count(f"tape:{label}")
         for act in ("list", "extract"):
             r = out[act]
-            if r["killed"] or r["wall"] > 30:
-                res.violate("tape_mutations", f"{act} did not terminate within the bound", case, {"wall": r["wall"]}, {"clause": "terminates"})
+            if r["killed"]:
+                res.violate("tape_mutations", f"{act} did not terminate within the bound", case, {"wall": r["wall"], "cpu": r["cpu"], "rc": r["rc"]}, {"clause": "terminates"})
             elif "MemoryError" in r["err"]:
                 res.violate("tape_mutations", f"{act} ran out of memory", case, r["err"][-200:], {"clause": "memory"})
         if out["before"] != out["mid"]:
